@@ -166,7 +166,9 @@ def generate(rng, tier):
             ops.append([4])
         if i % 2:
             X.add_variants(rng, prog, 0.6)       # other entry points of the same mechanism (see rxlib)
-            ops = X.vary_disposals(rng, prog, ops)
+            if i % 8 == 1:
+                X.add_streams(rng, prog)         # signal.to_stream(): an isomorphic effect inside the library
+            ops = [o for o in X.vary_disposals(rng, prog, ops) if not (o[0] == 8 and not X.disposable(prog, o[1]))]
         yield dict(case=C.norm(X.with_flags(rng, prog, ops, 0.4 if i % 2 else 0)), kind="random", compare=True)
     # pause / resume through both notification paths (F-C02-a shape and variations)
     for i in range(1500 if quick else 15000):
@@ -212,6 +214,8 @@ def generate(rng, tier):
         ops.append([4])
         if i % 2:
             X.add_variants(rng, prog, 0.6)
+            if i % 8 == 1:
+                X.add_streams(rng, prog)
             ops = X.vary_disposals(rng, prog, ops)
         yield dict(case=C.norm(X.with_flags(rng, prog, ops, 0.4 if i % 2 else 0)), kind="owners", compare=True)
     # selectors (Selector::new / new_with_fn) read by effects and memos
